@@ -27,7 +27,8 @@
           click.Path   the token itself (a str); with exists=True a usage error unless the file exists
         A missing required argument, an unconvertible token or a surplus positional token is a usage error: click exits
         with status 2 and the callback is NOT called.
-     K4 --version (click.version_option) is eager: if present, the version is printed and the callback is not called.
+     K4 --version (click.version_option) is eager: if present (and the parser itself did not fail, e.g. on an option with
+        too few tokens at the end of the command line), the version is printed and the callback is not called.
      K5 the callback is called with exactly one keyword argument per exposed parameter, named by K2; Python binds them to
         the signature by name (a name the signature lacks, or a repeated one, is a TypeError; an absent one takes the
         signature's default, here always None).
